@@ -20,6 +20,11 @@ type ClearsignCase struct {
 	Want        []ParaWant `json:"want"` // paragraphs of the signed text
 	Fault       string     `json:"fault"`
 	MustSucceed bool       `json:"mustSucceed"` // untampered + signer in keyring
+	// ThenKeyring: after the first read, the SAME keyring variable is changed in place to these
+	// keys (which do not include the signer; may be none) and the same bytes are read again - that
+	// second read must fail.
+	Then        string `json:"then,omitempty"`
+	ThenKeyring []byte `json:"thenKeyring,omitempty"`
 }
 
 const pgpPrefix = "-----BEGIN PGP "
@@ -59,7 +64,37 @@ func checkClearsign(c ClearsignCase, r *Recorder) error {
 		}
 		kr = openpgp.EntityList{}
 	}
-	return checkClearsignWith(c, kr, armored, "")
+	if err := checkClearsignWith(c, kr, armored, ""); err != nil {
+		return err
+	}
+	if c.Then != "" {
+		shared := append(openpgp.EntityList{}, kr...)
+		ptr := &shared
+		for round := 0; round < 2; round++ { // warm any state keyed by this very object
+			if pr, err := control.NewParagraphReader(bytes.NewReader(c.Input), ptr); err == nil {
+				_, _ = pr.All()
+			}
+			if dec, err := control.NewDecoder(bytes.NewReader(c.Input), ptr); err == nil {
+				var hs []paraHolder
+				_ = dec.Decode(&hs)
+			}
+		}
+		kr2, _ := openpgp.ReadKeyRing(bytes.NewReader(c.ThenKeyring))
+		shared = shared[:0]
+		shared = append(shared, kr2...)
+		if pr, err := control.NewParagraphReader(bytes.NewReader(c.Input), ptr); err == nil {
+			if ps, err := pr.All(); err == nil {
+				return errf("after the keyring object was changed in place to an %s keyring, the same clearsigned bytes were accepted again (%d paragraphs, signer %s)", c.Then, len(ps), fingerprint(pr.Signer()))
+			}
+		}
+		if dec, err := control.NewDecoder(bytes.NewReader(c.Input), ptr); err == nil {
+			var hs []paraHolder
+			if err := dec.Decode(&hs); err == nil {
+				return errf("after the keyring object was changed in place to an %s keyring, Decoder accepted the same clearsigned bytes again (signer %s)", c.Then, fingerprint(dec.Signer()))
+			}
+		}
+	}
+	return nil
 }
 
 func checkClearsignWith(c ClearsignCase, kr openpgp.EntityList, armored bool, krNote string) error {
@@ -121,7 +156,7 @@ func checkClearsignWith(c ClearsignCase, kr openpgp.EntityList, armored bool, kr
 
 var specC11 = Register(&Spec[ClearsignCase]{
 	Prop: "C11", Name: "clearsign",
-	Rule: "fault enumeration over clearsigned documents: C07 documents (1..3 paragraphs, LF) signed with clearsign.Encode by an RSA entity from a per-process pool; keyring = signer only / signer among others / others only / empty for the unmutated document; then with the signer in the keyring EVERY single-byte substitution (XOR 0x01, XOR 0x20, 'A'), EVERY single-byte deletion, EVERY single-byte insertion ('A', blank, newline), EVERY truncation length, splices of a foreign paragraph before the armor, inside the signed text, between text and signature, inside the signature armor and after it, replacement of the signature by that of another key or of another text, and removal of the signature block. Oracle: reading (ParagraphReader.All and Decoder.Decode) ends in an error, or succeeds with Signer() == signing entity in the keyring and paragraphs == those of the signed text; success with a nil signer is allowed only when the input no longer starts with the armor header; the unmutated document with the signer in the keyring must be accepted. Non-trivial: every faulted case; distinct by (bytes, keyring).",
+	Rule: "fault enumeration over clearsigned documents: C07 documents (1..3 paragraphs, LF) signed with clearsign.Encode by an RSA entity from a per-process pool; keyring = signer only / signer among others / others only / empty for the unmutated document; the same keyring OBJECT changed in place (to other keys, to no keys) between two reads of the same bytes - the second read must fail; then with the signer in the keyring EVERY single-byte substitution (XOR 0x01, XOR 0x20, 'A'), EVERY single-byte deletion, EVERY single-byte insertion ('A', blank, newline), EVERY truncation length, splices of a foreign paragraph before the armor, inside the signed text, between text and signature, inside the signature armor and after it, replacement of the signature by that of another key or of another text, and removal of the signature block. Oracle: reading (ParagraphReader.All and Decoder.Decode) ends in an error, or succeeds with Signer() == signing entity in the keyring and paragraphs == those of the signed text; success with a nil signer is allowed only when the input no longer starts with the armor header; the unmutated document with the signer in the keyring must be accepted. Non-trivial: every faulted case; distinct by (bytes, keyring).",
 	Check: checkClearsign,
 })
 
@@ -159,6 +194,16 @@ func enumerateClearsignFaults(b SignBase, thorough bool, yield func(ClearsignCas
 	}
 	c = mk(signed, "none")
 	c.Keyring, c.MustSucceed = serializePublic(other, signer), true
+	if !yield(c) {
+		return false
+	}
+	c = mk(signed, "then:keyring-changed-to-others")
+	c.MustSucceed, c.Then, c.ThenKeyring = true, "unrelated", serializePublic(other)
+	if !yield(c) {
+		return false
+	}
+	c = mk(signed, "then:keyring-emptied")
+	c.MustSucceed, c.Then = true, "empty"
 	if !yield(c) {
 		return false
 	}
